@@ -215,7 +215,9 @@ def interned_construction(rep: Report, prog: Program, resolver: Resolver, summ: 
     for cls in ("Dimension", "Prefix", "Unit"):
         new = prog.func(f"{cls}.__new__")
         if not any("_known" in w.location for w in writes_in(prog, resolver, new.qual)):
-            continue  # not interned by __new__
+            rep.ok("R19.7", f"{cls}.__init__", note="not interned by __new__")
+            rep.ok("R19.8", f"{cls}.__init__", note="not interned by __new__")
+            continue
         fi = prog.func(f"{cls}.__init__")
         cfg = CFG(fi.node)
         dom = cfg.dominators()
@@ -247,6 +249,7 @@ def interned_construction(rep: Report, prog: Program, resolver: Resolver, summ: 
             rep.ok("R19.8", f"{cls}.__init__", note="nothing in __init__ can raise")
             continue
         init_nodes = [n for n, v in stores.items() if "_initialized" in v.split(",")]
+        must = cfg.must_before({n: set(v.split(",")) for n, v in stores.items()})
         # the arm taken for an instance that an earlier, completed __init__ already built
         built_arm = {id(x) for st in fi.node.body if isinstance(st, ast.If) and ast.unparse(st.test) in ("self._initialized", "self._initialized is True")
                      for b in st.body for x in ast.walk(b)}
@@ -256,7 +259,7 @@ def interned_construction(rep: Report, prog: Program, resolver: Resolver, summ: 
             rep.ok("R19.8", f"{cls}.__init__", note="only the already-initialised arm can raise")
             continue
         for n, node, who in rnodes:
-            have = {a for d in dom.get(n, set()) if d in stores for a in stores[d].split(",")}
+            have = must.get(n, set())
             missing = sorted(required - have)
             rep.check("R19.7", f"{cls}.__init__:{ast.unparse(node)[:40]}", not missing,
                       f"`{ast.unparse(node)[:60]}` ({who}) can raise while the instance - already interned by {cls}.__new__ - has no "
